@@ -378,7 +378,10 @@ class Ctx:
         regs = [s["name"] for s in sh["states"] if s["kind"] != "default"]
         # a state may end the run and still ask for a transition in the same call (the explicitly requested state stays
         # selected: it is where the next engage() starts), or call engage() itself
-        comp = [("done+ns", n) for n in regs] + [("done+nsn", n) for n in regs]
+        # (plain machines: only towards states that are not must_finish - a must_finish state requested after done() runs
+        # while the machine is stopped, see DESIGN.md section 6; two actions in one call are beyond the stated alphabet anyway)
+        ctargets = regs if sh["auto"] else [s_["name"] for s_ in sh["states"] if s_["kind"] != "default" and not s_["mf"]]
+        comp = [("done+ns", n) for n in ctargets] + [("done+nsn", n) for n in ctargets]
         self.menu = [("none",)] + [("ns", n) for n in regs] + [("nsn", n) for n in regs] + [("done",)]
         if sh["auto"]:
             self.menu += comp
@@ -1172,6 +1175,9 @@ def _want(pid):
 
 def run_check(pid, tier, seed, shapes, nops, maxdev, bfs_depth, rule_extra="", probe_every=0, sig_names=(), timing_depth=0, light_names=(), light_nops=3, light_bfs=3, light_timing=8, sibling_depth=10):
     t0 = time.time()
+    if _os.environ.get("VERIF_SM_SHAPES"):  # maintenance switch: restrict the run to the named shapes
+        only = set(_os.environ["VERIF_SM_SHAPES"].split(","))
+        shapes = [sh for sh in shapes if sh["name"] in only]
     items = []
     bfs = []
     light = set(light_names)
